@@ -3,6 +3,7 @@ package main
 import (
 	"errors"
 	"fmt"
+	"math"
 	"net"
 	"strings"
 	"time"
@@ -74,9 +75,10 @@ func gatherTunnel(reg *prometheus.Registry, nkeys, nlocs int) ([]int64, []int64,
 				lab[l.GetName()] = l.GetValue()
 			}
 			v := counterValue(m)
-			iv := int64(v)
-			if float64(iv) != v {
-				return nil, nil, fmt.Errorf("non-integer seconds %v", v)
+			// the clock of the harness moves in milliseconds; the counters are float seconds
+			iv := int64(math.Round(v * 1000))
+			if math.Abs(v*1000-float64(iv)) > 1e-3 {
+				return nil, nil, fmt.Errorf("tunnel time %v s is not a whole number of milliseconds", v)
 			}
 			switch mf.GetName() {
 			case "tunnel_time_seconds":
@@ -146,7 +148,7 @@ func runC17History(h []cev, nkeys, nlocs int) (obs [][2][]int64, err error) {
 				delete(udp, e.ID)
 			}
 		case "tick":
-			clock = clock.Add(time.Duration(e.Dt) * time.Second)
+			clock = clock.Add(time.Duration(e.Dt) * time.Millisecond)
 		case "scrape":
 			k, l, err := gatherTunnel(reg, nkeys, nlocs)
 			if err != nil {
@@ -276,18 +278,18 @@ func genC17History(r *Rng, n, nkeys, nips int) []cev {
 			h = append(h, cev{Kind: "udpremove", ID: openUDP[i]})
 			openUDP = append(openUDP[:i], openUDP[i+1:]...)
 		case c < 90:
-			h = append(h, cev{Kind: "tick", Dt: []int{0, 1, 1, 2, 5, 60, 3600}[r.Intn(7)]})
+			h = append(h, cev{Kind: "tick", Dt: []int{0, 250, 400, 700, 1000, 1000, 2000, 5000, 60000, 3600000}[r.Intn(10)]}) // milliseconds
 		default:
 			h = append(h, cev{Kind: "scrape"})
 		}
 	}
-	h = append(h, cev{Kind: "tick", Dt: 7}, cev{Kind: "scrape"})
+	h = append(h, cev{Kind: "tick", Dt: 7000}, cev{Kind: "scrape"})
 	return h
 }
 
 func c17(ctx *Ctx) {
 	r := ctx.Rng
-	ctx.Stats.Rule = "history = random interleaving of TCP open/auth/close (incl. unauthenticated closes), UDP add/remove, whole-second clock ticks and scrapes over several client IPs and keys (key 0 has the empty ID) against the real prometheus collectors with a stubbed clock; non-trivial = history with overlapping tunnels of one (ip,key), at least 2 scrapes and a non-zero total; distinct by content"
+	ctx.Stats.Rule = "history = random interleaving of TCP open/auth/close (incl. unauthenticated closes), UDP add/remove, clock ticks of 0.25 s to an hour (milliseconds in model and harness) and scrapes over several client IPs and keys (key 0 has the empty ID) against the real prometheus collectors with a stubbed clock; non-trivial = history with overlapping tunnels of one (ip,key), at least 2 scrapes and a non-zero total; distinct by content"
 	n := 200
 	if ctx.Thorough() {
 		n = 3000
@@ -295,7 +297,7 @@ func c17(ctx *Ctx) {
 	var terms []string
 	shard := 0
 	// corpus first: the empty-ID witness (fixed defect, must stay fixed)
-	corpus := [][]cev{{{Kind: "tcpopen", ID: 1, IP: 3}, {Kind: "tcpauth", ID: 1, Key: 0}, {Kind: "tick", Dt: 5}, {Kind: "tcpclose", ID: 1}, {Kind: "tick", Dt: 100}, {Kind: "scrape"}}}
+	corpus := [][]cev{{{Kind: "tcpopen", ID: 1, IP: 3}, {Kind: "tcpauth", ID: 1, Key: 0}, {Kind: "tick", Dt: 5000}, {Kind: "tcpclose", ID: 1}, {Kind: "tick", Dt: 100000}, {Kind: "scrape"}}}
 	for i := 0; i < n+len(corpus); i++ {
 		nkeys, nips, nlocs := r.Range(1, 4), r.Range(1, 5), r.Range(1, 3)
 		var h []cev
